@@ -41,13 +41,12 @@ int parse_rule(const JV *po, int max_matchers, Rule &out) {
 	out = Rule();
 	if (!po) { out.all = true; return 0; }
 	if (po->t != JV::Obj) return 1;
-	int nci = 0;
+	int nci = 0; bool ci_conflict = false;
 	static const char *names[] = {"equals", "equalsNot", "startsWith", "endsWith", "contains", "containsAllOf"};
 	int count = 0;
 	bool refused = false;
 	for (auto &kv : po->o) {
-		if (kv.first == "caseInsensitive") { nci++; out.ci = (kv.second.t == JV::Bool && kv.second.b); continue; }
-		if (lower_ascii(kv.first) == "caseinsensitive") return 2; // case-variant option key: daemon-specific lookup, no expectation
+		if (kv.first == "caseInsensitive") { bool v = (kv.second.t == JV::Bool && kv.second.b); if (nci > 0 && v != out.ci) ci_conflict = true; if (nci == 0) out.ci = v; nci++; continue; }
 		count++;
 		bool known = false;
 		for (auto n : names) if (kv.first == n) known = true;
@@ -55,7 +54,7 @@ int parse_rule(const JV *po, int max_matchers, Rule &out) {
 		Rule::M m; m.name = kv.first;
 		if (kv.first == "containsAllOf") {
 			if (kv.second.t != JV::Arr) { refused = true; continue; }
-			if (kv.second.a.empty()) return 2; // statement is silent
+			if (kv.second.a.empty()) return 3; // statement is silent
 			for (auto &e : kv.second.a) { if (e.t != JV::Str) refused = true; else m.ops.push_back(e.s); }
 		} else {
 			if (kv.second.t != JV::Str) { refused = true; continue; }
@@ -63,10 +62,10 @@ int parse_rule(const JV *po, int max_matchers, Rule &out) {
 		}
 		out.ms.push_back(m);
 	}
-	if (nci > 1) return 2;      // repeated option key: either refused or as given once; handled by dedicated oracle
-	if (count == 0) return 1;    // "no matcher in path object"
+	if (count == 0 && nci <= 1) return 1;    // "no matcher in path object"
 	if (count > max_matchers) return 1;
 	if (refused) return 1;
+	if (nci > 1) return ci_conflict || count == 0 ? 3 : 2;      // repeated option key: either refused or as given once
 	return 0;
 }
 
@@ -74,9 +73,9 @@ std::string Exp::describe() const {
 	std::string s;
 	switch (kind) {
 	case RESP: {
-		static const char *rn[] = {"result:true", "daemon-error", "result==", "error==", "result|error", "any-result", "get-set"};
+		static const char *rn[] = {"result:true", "daemon-error", "result==", "error==", "result|error", "any-result", "get-set", "error|get-set"};
 		s = "RESP id=" + id.dump() + " " + rn[rk];
-		if (rk == R_RESULT_EQ || rk == R_ERROR_EQ || rk == R_GETSET) s += payload.dump();
+		if (rk == R_RESULT_EQ || rk == R_ERROR_EQ || rk == R_GETSET || rk == R_ERR_OR_GETSET) s += payload.dump();
 		break; }
 	case NOTIFY: s = "NOTIFY fetch=" + fetchid.dump() + " " + event + " path=" + json_escape(path) + (check_value && has_value ? " value=" + value.dump() : ""); break;
 	case ROUTED: s = "ROUTED method=" + json_escape(path) + " params=" + params.dump(); break;
@@ -149,9 +148,10 @@ void Model::notify(const Elem &e, const char *event, int only_peer, const JV *on
 				if (ev == "remove") f.reported.erase(e.path);
 			}
 			if (!send) continue;
-			Exp x; x.kind = Exp::NOTIFY; x.fetchid = f.id; x.event = ev; x.path = e.path; x.prop = "C01";
+			Exp x; x.kind = Exp::NOTIFY; x.fetchid = f.id; x.event = ev; x.path = e.path; x.prop = notify_prop;
 			x.has_value = e.is_state; x.value = e.value; x.check_value = e.is_state && ev != "remove";
 			x.group = group_ctr; x.rank = rank; x.why = ev + " of " + e.path;
+			if (opt_decision >= 0) { x.optional = true; x.decision = opt_decision; }
 			host->expect(p.c, x);
 		}
 	}
@@ -369,11 +369,35 @@ bool Model::do_fetch(int c, const JV &req, const JV &params) {
 	if (!id || (id->t != JV::Str && id->t != JV::Num)) { respond(c, req, Exp::R_ERR_DAEMON, "C16", "fetch without usable id"); return true; }
 	for (auto &f : p.fetches) if (id_equal(f.id, *id)) { host->probe("fetch_id_in_use"); respond(c, req, Exp::R_ERR_DAEMON, "C01", "fetch id in use"); return true; }
 	Rule rule; int rc = parse_rule(params.get("path"), max_matchers, rule);
-	if (rc == 2) { host->harness_error("unmodelled fetch rule in exact mode: " + params.dump()); return true; }
+	if (rc == 3) { host->harness_error("unmodelled fetch rule in exact mode: " + params.dump()); return true; }
 	if (rc == 1) { host->probe("rule_refused"); respond(c, req, Exp::R_ERR_DAEMON, "C16", "refused rule"); return true; }
 	Fetch f; f.id = *id; f.rule = rule; f.serial = ++serial_ctr;
 	p.fetches.push_back(f);
 	host->fetch_changed(c, *id);
+	if (rule.all) host->probe("fetch_all"); else for (auto &m : rule.ms) host->probe("matcher:" + m.name + (rule.ci ? ":ci" : ":cs"));
+	if (rc == 2) {
+		// repeated option key: the daemon may refuse, or treat the key as given once; follow its answer
+		host->probe("repeated_option_key");
+		const JV *rid = req.get("id");
+		if (!rid || (rid->t != JV::Str && rid->t != JV::Num)) { host->harness_error("fetch with a repeated option key needs a request id to be decidable"); return true; }
+		int d = (int)decisions.size();
+		Decision dec; dec.what = "fetch with repeated option key";
+		JV fid = *id;
+		dec.commit = [this, c, fid](bool ok) {
+			if (ok) return;
+			auto &fs = peers[c].fetches;
+			for (size_t i = 0; i < fs.size(); i++) if (id_equal(fs[i].id, fid)) { fs.erase(fs.begin() + (long)i); break; }
+			host->fetch_changed(c, fid);
+		};
+		if (!host->observable(c)) dec.silent_accept = true; // nobody can see the outcome: it only concerns the requester's own stream
+		decisions.push_back(dec);
+		opt_decision = d;
+		for (auto &kv : elems) notify(kv.second, "add", c, id, 0);
+		opt_decision = -1;
+		Exp x; x.kind = Exp::RESP; x.rk = Exp::R_EITHER; x.id = *rid; x.prop = "C16"; x.why = "fetch with repeated option key"; x.group = group_ctr; x.rank = 1; x.decision = d;
+		host->expect(c, x);
+		return true;
+	}
 	bool any = false;
 	for (auto &kv : elems) {
 		size_t before = p.fetches.back().reported.size();
@@ -381,7 +405,7 @@ bool Model::do_fetch(int c, const JV &req, const JV &params) {
 		if (p.fetches.back().reported.size() != before) any = true;
 	}
 	host->probe(any ? "add_then_fetch" : "fetch_empty");
-	respond(c, req, Exp::R_TRUE, "C01", "fetch accepted");
+	respond(c, req, Exp::R_TRUE, notify_prop, "fetch accepted");
 	return true;
 }
 
@@ -403,8 +427,9 @@ bool Model::do_unfetch(int c, const JV &req, const JV &params) {
 bool Model::do_get(int c, const JV &req, const JV &params) {
 	Peer &p = peers[c];
 	Rule rule; int rc = parse_rule(params.get("path"), max_matchers, rule);
-	if (rc == 2) { host->harness_error("unmodelled get rule in exact mode"); return true; }
-	if (rc == 1) { respond(c, req, Exp::R_ERR_DAEMON, "C16", "refused rule in get"); return true; }
+	if (rc == 3) { host->harness_error("unmodelled get rule in exact mode"); return true; }
+	if (rc == 1) { host->probe("get_rule_refused"); respond(c, req, Exp::R_ERR_DAEMON, "C16", "refused rule in get"); return true; }
+	if (!rule.all) host->probe("get_with_rule");
 	JV set = JV::arr();
 	for (auto &kv : elems) {
 		const Elem &e = kv.second;
@@ -412,7 +437,8 @@ bool Model::do_get(int c, const JV &req, const JV &params) {
 		JV o = JV::obj(); o.set("path", JV::str(e.path)); o.set("value", e.value); set.push(o);
 	}
 	host->probe("get");
-	respond(c, req, Exp::R_GETSET, "C04", "get", set);
+	if (set.a.size() >= 2) host->probe("get_selected>=2");
+	respond(c, req, rc == 2 ? Exp::R_ERR_OR_GETSET : Exp::R_GETSET, rule.all ? "C04" : "C16", "get", set);
 	return true;
 }
 
